@@ -1,6 +1,6 @@
 (* Entry points of the C05 / C11 correspondence cases (evaluated by vm_compute in the generated case files). *)
 From Coq Require Import List NArith ZArith Bool String.
-From SudachiVerif Require Import Model.Codec.
+From SudachiVerif Require Import Model.Codec Model.CodecConn Model.CodecResolve.
 From SudachiVerif Require Generated.FieldOrder.
 Import ListNotations.
 Open Scope N_scope.
@@ -24,26 +24,11 @@ Definition le64 (n : N) : bytes := le32 (n mod 4294967296) ++ le32 (n / 42949672
 Definition header_bytes (version time : N) (descr : bytes) : bytes :=
   le64 version ++ le64 time ++ descr ++ repeat 0 (256 - List.length descr).
 
-(* ConnBuffer: matrix of num_left * num_right i16 cells, zero filled, lines applied in order (write_elem);
-   ConnectionMatrix::index for reading.  kind 0 = right * num_left + left *)
-Definition conn_idx (nl : N) (l r : N) : N := r * nl + l.
-Fixpoint upd {A} (n : nat) (x : A) (l : list A) : list A :=
-  match l, n with
-  | [], _ => []
-  | _ :: t, O => x :: t
-  | h :: t, S k => h :: upd k x t
-  end.
-Definition conn_cells (nl nr : N) (lines : list (N * N * Z)) : list Z :=
-  fold_left (fun m t => let '(l, r, c) := t in upd (N.to_nat (conn_idx nl l r)) c m) lines (repeat 0%Z (N.to_nat (nl * nr))).
-Definition conn_bytes (nl nr : N) (lines : list (N * N * Z)) : bytes :=
-  le16 nl ++ le16 nr ++ flat_map (fun c => le16 (i16_bits c)) (conn_cells nl nr lines).
-Definition conn_cost (nl : N) (section : bytes) (l r : N) : option Z :=
-  match skipn (N.to_nat (4 + 2 * conn_idx nl l r)) section with
-  | b0 :: b1 :: _ => Some (to_i16 (b0 + 256 * b1))
-  | _ => None
-  end.
-Definition last_cost (lines : list (N * N * Z)) (l r : N) : Z :=
-  fold_left (fun acc t => let '(l', r', c) := t in if (l' =? l) && (r' =? r) then c else acc) lines 0%Z.
+(* connection matrix: Model/CodecConn.v (the model C05_matrix_roundtrip is about); the harness hands over N values *)
+Definition zlines (lines : list (N * N * Z)) : list cline :=
+  map (fun t => let '(l, r, c) := t in (Z.of_N l, Z.of_N r, c)) lines.
+Definition conn_section_of (nl nr : N) (lines : list (N * N * Z)) : option bytes :=
+  option_map (conn_section (Z.of_N nl) (Z.of_N nr)) (conn_compile (Z.of_N nl) (Z.of_N nr) (zlines lines)).
 
 (* ------------------------------------------------------------------ what the harness read back through the public API *)
 Inductive readback :=
@@ -67,20 +52,15 @@ Definition rb_eqb (x y : readback) : bool :=
 
 (* the lexicon as the reader sees it: for each word the bytes of the words section from its offset on.
    words = the words section (starts at file position `offset`) *)
-Definition words_count (words : bytes) : N := match read_le32 words with Some (n, _) => n | None => 0 end.
-Fixpoint read_offsets (n : nat) (bs : bytes) : list N :=
-  match n with
-  | O => []
-  | S k => match read_le32 bs with Some (o, r) => o :: read_offsets k r | None => [] end
-  end.
-Definition lexicon_of (offset : N) (words : bytes) : lexicon :=
-  let n := words_count words in
-  map (fun o => skipn (N.to_nat (o - offset)) words) (read_offsets (N.to_nat n) (skipn (N.to_nat (4 + 6 * n)) words)).
-Definition params_of (words : bytes) (wid : N) : option (Z * Z * Z) := read_params (skipn (N.to_nat (4 + 6 * wid)) words).
+(* the harness hands over the words section only (the trie is not modelled); the reader model of Model/Codec.v
+   (lexicon_of_file, file_params: the functions C05_lexicon_roundtrip is about) works on the file with absolute
+   positions, so the section is put back at its position behind a zero prefix *)
+Definition file_of (offset : N) (words : bytes) : bytes := repeat 0 (N.to_nat offset) ++ words.
+Definition lexicon_of (offset : N) (words : bytes) : lexicon := lexicon_of_file (file_of offset words) offset.
 
 (* reading word wid of dictionary dict_id through the model of LexiconSet::get_word_info_subset *)
-Definition model_readback (lx : lexicon) (words : bytes) (dict_id nsys pos_offset wid : N) : readback :=
-  match lexset_get lx true dict_id nsys pos_offset wid ALL, params_of words wid with
+Definition model_readback (lx : lexicon) (file : bytes) (offset : N) (dict_id nsys pos_offset wid : N) : readback :=
+  match lexset_get lx true dict_id nsys pos_offset wid ALL, file_params file offset wid with
   | Some i, Some p => rb_of_info i p
   | _, _ => RBFail
   end.
@@ -110,12 +90,16 @@ Definition check_c05
   (dict_id nsys pos_offset : N) (dfs : list text) (rbs : list readback) : bool :=
   nlist_eqb (header_bytes version time descr) impl_header
   && obytes_eqb (pos_table_bytes pos_rows) impl_pos
-  && nlist_eqb (conn_bytes nl nr lines) impl_conn
+  && obytes_eqb (conn_section_of nl nr lines) impl_conn
   && forallb (fun t => let '(l, r, c) := t in
-                match conn_cost nl impl_conn l r with Some m => (m =? c)%Z && (c =? last_cost lines l r)%Z | None => false end) conn_reads
+                match section_cost impl_conn (Z.of_N l) (Z.of_N r) with
+                | Some m => (m =? c)%Z && (c =? declared (zlines lines) (Z.of_N l) (Z.of_N r))%Z
+                | None => false
+                end) conn_reads
   && obytes_eqb (write_words_section offset es) impl_words
-  && (let lx := lexicon_of offset impl_words in
-      forall3 (fun wid e_df rb => rb_eqb (model_readback lx impl_words dict_id nsys pos_offset wid) rb
+  && (let file := file_of offset impl_words in
+      let lx := lexicon_of_file file offset in
+      forall3 (fun wid e_df rb => rb_eqb (model_readback lx file offset dict_id nsys pos_offset wid) rb
                                   && rb_eqb (expected_readback dict_id (fst e_df) (snd e_df)) rb)
               (iota (List.length es) 0) (combine es dfs) rbs).
 
@@ -124,9 +108,32 @@ Definition check_c05
 Definition check_c05_model_only
   (offset : N) (es : list entry) (impl_words : bytes) (dict_id nsys pos_offset : N) (rbs : list readback) : bool :=
   obytes_eqb (write_words_section offset es) impl_words
-  && (let lx := lexicon_of offset impl_words in
-      forall3 (fun wid (_ : entry) rb => rb_eqb (model_readback lx impl_words dict_id nsys pos_offset wid) rb)
+  && (let file := file_of offset impl_words in
+      let lx := lexicon_of_file file offset in
+      forall3 (fun wid (_ : entry) rb => rb_eqb (model_readback lx file offset dict_id nsys pos_offset wid) rb)
               (iota (List.length es) 0) es rbs).
+
+(* the same with the split columns as written in the CSV: the Resolve model (Model/CodecResolve.v, the one
+   C05_resolve_sound is about) turns the rows into entries; `sys` = entries of the system dictionary a user dictionary
+   is compiled against *)
+Definition check_c05_rows
+  (version time : N) (descr impl_header : bytes)
+  (pos_rows : list (list text)) (impl_pos : bytes)
+  (nl nr : N) (lines : list (N * N * Z)) (impl_conn : bytes) (conn_reads : list (N * N * Z))
+  (offset : N) (user : bool) (rows : list rrow) (sys : list entry) (impl_words : bytes)
+  (dict_id nsys pos_offset : N) (dfs : list text) (rbs : list readback) : bool :=
+  match resolve_rows user rows sys with
+  | Some es => check_c05 version time descr impl_header pos_rows impl_pos nl nr lines impl_conn conn_reads
+                         offset es impl_words dict_id nsys pos_offset dfs rbs
+  | None => false
+  end.
+Definition check_c05_model_only_rows
+  (offset : N) (user : bool) (rows : list rrow) (sys : list entry) (impl_words : bytes)
+  (dict_id nsys pos_offset : N) (rbs : list readback) : bool :=
+  match resolve_rows user rows sys with
+  | Some es => check_c05_model_only offset es impl_words dict_id nsys pos_offset rbs
+  | None => false
+  end.
 
 (* ------------------------------------------------------------------ C11 *)
 (* raw WordInfoData as the implementation returned it for one subset *)
